@@ -601,12 +601,13 @@ func genC17Limits(c *Ctx, g *c17Gen) {
 			f.sender = "@" + mk(s, 3) + ":x"
 			vs = append(vs, variant{"sender", f, fmt.Sprintf("sender %s cp=%d+%d", s.unit, s.cp, s.filler)})
 			f = base
-			if domainless {
-				f.room = "!" + mk(s, 1)
-			} else {
-				f.room = "!" + mk(s, 3) + ":x"
+			// a room ID with a domain in every version (a domainless one has a fixed length);
+			// since the repair of F9 an event is only "otherwise valid" if its room ID is
+			// grammatical, so the opaque part must not be empty
+			if body := mk(s, 3); body != "" {
+				f.room = "!" + body + ":x"
+				vs = append(vs, variant{"room", f, fmt.Sprintf("room %s cp=%d+%d", s.unit, s.cp, s.filler)})
 			}
-			vs = append(vs, variant{"room", f, fmt.Sprintf("room %s cp=%d+%d", s.unit, s.cp, s.filler)})
 		}
 		// total size
 		tots := []int{65536, 65537}
